@@ -43,6 +43,7 @@ type Run struct {
 	NotDecided  string
 	Assumptions []string
 	floors      map[string]int
+	VerifDir    string
 	start       time.Time
 }
 
@@ -285,4 +286,18 @@ func Short(s string) string {
 		return s[:157] + "..."
 	}
 	return s
+}
+
+// Table reads a reviewed table /verif/tables/<name>.json into v; a missing or malformed table is undecided.
+func (r *Run) Table(name string, v any) bool {
+	b, err := os.ReadFile(filepath.Join(r.VerifDir, "tables", name+".json"))
+	if err != nil {
+		r.Undecided("tables", name, "reviewed table missing: "+err.Error())
+		return false
+	}
+	if err := json.Unmarshal(b, v); err != nil {
+		r.Undecided("tables", name, "reviewed table malformed: "+err.Error())
+		return false
+	}
+	return true
 }
